@@ -41,16 +41,53 @@ def cases(tier, seed):
     return out
 
 
+class FalsyError(Exception):
+    """an exception whose truth value is False (e.g. an error collection that is empty)"""
+
+    def __len__(self):
+        return 0
+
+
+class Facade(object):
+    """future-like object that is not a concurrent.futures.Future subclass"""
+
+    def __init__(self, inner):
+        self._inner = inner
+
+    def add_done_callback(self, fn):
+        self._inner.add_done_callback(lambda _f: fn(self))
+
+    def result(self, timeout=None):
+        return self._inner.result(timeout)
+
+    def exception(self, timeout=None):
+        return self._inner.exception(timeout)
+
+    def cancelled(self):
+        return self._inner.cancelled()
+
+    def cancel(self):
+        return self._inner.cancel()
+
+    def done(self):
+        return self._inner.done()
+
+    def running(self):
+        return self._inner.running()
+
+
 class World(object):
-    def __init__(self, p, q, fail_fn=False):
+    def __init__(self, p, q, fail_fn=False, falsy=False, facade=False):
         F = instr.ME.futures
         self.p, self.q = p, q
         self.calls = []
         self.e_fn = UserErrorB("fn")
         self.fail_fn = fail_fn
+        self.falsy = falsy
         self.futs = [SpyFuture("fn")] + [SpyFuture("p%d" % i) for i in range(p)] + [SpyFuture("k%d" % i) for i in range(q)]
-        kw = {KW[i]: self.futs[1 + p + i] for i in range(q)}
-        self.out = F.f_apply(self.futs[0], *self.futs[1:1 + p], **kw)
+        given = [Facade(f) for f in self.futs] if facade else list(self.futs)
+        kw = {KW[i]: given[1 + p + i] for i in range(q)}
+        self.out = F.f_apply(given[0], *given[1:1 + p], **kw)
         self.excs = {}
 
     def fn(self, *a, **k):
@@ -65,7 +102,7 @@ class World(object):
             return False
         try:
             if fail:
-                f.set_exception(self.excs.setdefault(i, UserErrorA("input%d" % i)))
+                f.set_exception(self.excs.setdefault(i, (FalsyError if self.falsy else UserErrorA)("input%d" % i)))
             elif i == 0:
                 f.set_result(self.fn)
             else:
@@ -121,21 +158,23 @@ def run_order(case, res):
         for _ in range(case["sample"]):
             rng.shuffle(base)
             orders.append(tuple(base))
-    variants = [("ok", None)] + [("fail", i) for i in range(n)] + [("fail_fn", None)]
+    variants = ([("ok", None)] + [("fail", i) for i in range(n)] + [("fail_fn", None)] + [("fail_falsy", i) for i in range(n)]
+                + [("facade", None)] + [("facade_fail", n - 1)])
     for order in orders:
         for kind, pos in (variants if len(orders) <= 24 else [variants[rng.randrange(len(variants))], ("ok", None)]):
             begin("rt")
             ctx = Ctx()
             try:
-                w = World(p, q, fail_fn=(kind == "fail_fn"))
+                failing = kind in ("fail", "fail_falsy", "facade_fail")
+                w = World(p, q, fail_fn=(kind == "fail_fn"), falsy=(kind == "fail_falsy"), facade=kind.startswith("facade"))
                 # fn must not run before the last input resolves
                 for step, i in enumerate(order):
-                    w.complete(i, fail=(kind == "fail" and i == pos))
-                    if step < n - 1 and kind != "fail":
+                    w.complete(i, fail=(failing and i == pos))
+                    if step < n - 1 and not failing:
                         w.judge(res, "f_apply p=%d q=%d order=%s after %d completions" % (p, q, order, step + 1), all_done=False)
                 res.execs += 1
                 label = "f_apply p=%d q=%d order=%s %s" % (p, q, order, kind + ("@%s" % pos if pos is not None else ""))
-                if w.judge(res, label, failing=pos if kind == "fail" else None):
+                if w.judge(res, label, failing=pos if failing else None):
                     res.key(p, q, order, kind, pos)
                 res.sample({"positional": p, "keyword": q, "completion_order": order, "variant": [kind, pos], "fn_calls": w.calls[:1],
                             "output": outcome_repr(outcome(w.out))}, limit=1)
